@@ -308,3 +308,55 @@ class PairScenario:
             "EmitJson": "= " + ("TRUE" if emit else "FALSE"),
             "InitN": "= %d" % self.initn,
         }
+
+
+def emit_transitions(pid, scn, timeout=3600):
+    """Run TLC on the scenario and keep its transition graph in a file (one JSON line per
+    transition); -> (path, parsed TLC result)."""
+    d = vf.fresh_dir(os.path.join(vf.RUN, pid, scn.name + "-emit"))
+    cfg = vf.write_cfg(os.path.join(d, "Machine.cfg"), scn.constants(emit=True), view="View", action_constraints=["Emit"],
+                       invariants=scn.invariants, properties=scn.properties, constraints=["ExploreOnlySame"])
+    cmd = vf.tlc_cmd("Machine.tla", cfg, os.path.join(d, "md"), workers=scn.workers, heap="6g")
+    path = os.path.join(d, "transitions.ndjson")
+    log = os.path.join(d, "tlc.log")
+    tlc = subprocess.Popen(cmd, cwd=vf.SPEC, stdout=subprocess.PIPE, stderr=subprocess.STDOUT, env=_tlc_env())
+    with open(path, "wb") as out, open(log, "wb") as logf:
+        for line in tlc.stdout:
+            (out if line[:2] == b'"{' else logf).write(line)
+    try:
+        tlc.wait(timeout=timeout)
+    except subprocess.TimeoutExpired:
+        tlc.kill()
+        raise vf.Infra("TLC timed out on " + scn.name)
+    shutil.rmtree(os.path.join(d, "md"), ignore_errors=True)
+    with open(log, errors="replace") as f:
+        p = vf.parse_tlc_output(f.read())
+    if not p["ok"]:
+        raise vf.Infra("TLC did not finish on %s: %s (%s)" % (scn.name, p["error"] or p["violation"], log))
+    return path, p
+
+
+def walk_file(pid, scn, gh_exe, path, tag, extra_plan=None, timeout=3600):
+    """Execute a saved transition graph on the real classes with one build of the harness."""
+    d = vf.fresh_dir(os.path.join(vf.RUN, pid, "%s-%s" % (scn.name, tag)))
+    os.makedirs(vf.REPLAYS, exist_ok=True)
+    plan = {"group": scn.group, "reps": scn.reps, "replay_dir": vf.REPLAYS, "tag": "%s-%s-%s" % (pid, scn.name, tag),
+            "crash_note": os.path.join(d, "crash.json"), "max_fail": 3}
+    plan.update(extra_plan or {})
+    planf = os.path.join(d, "plan.json")
+    with open(planf, "w") as f:
+        json.dump(plan, f)
+    with open(path, "rb") as inp:
+        r = subprocess.run([gh_exe, "walk", planf], stdin=inp, stdout=subprocess.PIPE, stderr=subprocess.PIPE, timeout=timeout)
+    summary = None
+    for ln in r.stdout.decode(errors="replace").splitlines():
+        if ln.startswith("SUMMARY "):
+            summary = json.loads(ln[8:])
+    note = None
+    if summary is None:
+        try:
+            with open(plan["crash_note"]) as f:
+                note = json.load(f)
+        except Exception:
+            pass
+    return {"summary": summary, "rc": r.returncode, "note": note, "stderr": r.stderr.decode(errors="replace")[-4000:]}
